@@ -178,7 +178,12 @@ def mk(spec: Dict[str, Any], W: int):
     floor = smin(spec)
     if k == "panel":
         pad = spec["padding"]
-        return Panel(child, getattr(rbox, spec["box"]), title=spec.get("title"), title_align=spec.get("title_align", "center"),
+        title = spec.get("title")
+        if title and len(title) % 2 == 0:
+            from rich.text import Text as _T
+
+            title = _T(title)  # a caller-owned Text object as title (every other title): must not be modified
+        return Panel(child, getattr(rbox, spec["box"]), title=title, title_align=spec.get("title_align", "center"),
                      expand=spec["expand"], style=spec.get("style") or "none", width=_res(spec.get("width"), W, floor),
                      padding=pad if isinstance(pad, int) else tuple(pad))
     if k == "padding":
@@ -261,6 +266,12 @@ def check_frame(spec: Dict[str, Any], W: int) -> Tuple[Dict[str, int], List[Dict
     k = spec["k"]
     obj = mk(spec, W)
     try:
+        if k == "panel" and spec.get("title"):
+            # the same object measured and rendered before: a frame must come out the same every time
+            from rich.measure import Measurement as _M
+
+            _M.get(console, obj, W)
+            _render(console, obj)
         lines, ended = _render(console, obj)
     except Exception as e:
         out.hit("c08.renders")
